@@ -143,6 +143,12 @@ example : InjectedKids exEnv exCtx lenient ['z'] metaRoot {} none docKids deepKi
   InjectedKids.inChild (pre := [leafT ['h','i'] ['a']]) [] none none (hpre := rfl) (hw := rfl) (hchild := rfl)
     (InjectedKids.here (by decide) {} none _ _ _ _ _ [] [leafT ['5'] ['x']])
 
+-- the same insertion under the strict default configuration: the hypothesis of strict_unknown_deep / _root
+example : ({} : ParserConfig).failOnUnknownProperties = true := rfl
+example : InjectedKids exEnv exCtx {} ['z'] metaRoot {} none docKids deepKids true :=
+  InjectedKids.inChild (pre := [leafT ['h','i'] ['a']]) [] none none (hpre := rfl) (hw := rfl) (hchild := rfl)
+    (InjectedKids.here (by decide) {} none _ _ _ _ _ [] [leafT ['5'] ['x']])
+
 /-- **skip_invariant_deep_root**: for `NodeParser.parse` -/
 theorem skip_invariant_deep_root {e : BEnv} {Γ : Ctx} {cfg : ParserConfig} {clazz : ClassId} {uq : QN}
     {pa : List (QN × Str)} {pn : NsMap} {m : XmlMeta} {ks ks' : List Tree} {b : Bool}
@@ -363,6 +369,11 @@ theorem unknown_attr_strict_fails {m : XmlMeta} {q : QN} (hq : unknownAttr m q =
     (hpre : bindAttrs e cfg m a1 ns = .ok r) :
     bindAttrs e cfg m (a1 ++ (q, v) :: a2) ns = .error (.parser "Unknown attribute") := by
   rw [unknown_attr_policy hq]; simp [attrReported, hx, hc, hpre, thenFail]
+
+-- non-vacuity of row 3: `k` is unknown to `Leaf`, not an xsi attribute, and the attribute before it (`i="7"`) binds
+example : unknownAttr metaLeaf ['k'] = true ∧ targetUri ['k'] ≠ some xsiNs
+    ∧ (bindAttrs exEnv { failOnUnknownAttributes := true } metaLeaf [(['i'], ['7'])] []).toOption.isSome = true :=
+  ⟨by decide, by decide, by decide⟩
 
 /-- Full-strength form on the whole element: an unknown attribute that is not reported
 never changes what the element parses to. -/
